@@ -31,6 +31,7 @@ def parse_page(text):
     sec = None
     fence = None        # (ticks, lang, acc)
     summary = None
+    typeline = False
     for ln in lines:
         if fence is not None:
             m = FENCE_RE.match(ln)
@@ -55,13 +56,16 @@ def parse_page(text):
         m = re.match(r'^\*\*Summary\*\*:\s*(.*)$', ln)
         if m:
             summary = m.group(1)
+        if re.match(r'^\*\*Type\*\*:\s*Aggregate\b', ln):
+            typeline = True
         m = FENCE_RE.match(ln)
         if m:
             fence = (m.group(1), m.group(2), [])
             continue
         if sec and ln.strip():
             secs[sec]['prose'] += 1
-    return {'summary': summary, 'sections': secs, 'present': present, 'unterminated_fence': fence is not None}
+    return {'summary': summary, 'sections': secs, 'present': present, 'unterminated_fence': fence is not None,
+            'typeline': typeline}
 
 
 def classify(p):
@@ -127,7 +131,7 @@ def build_table(repo, verif=VERIF):
                 'avoid': a, 'prefer': b,
                 'avoid_lines': a[0].count('\n') if a else 0, 'prefer_lines': b[0].count('\n') if b else 0,
                 'reason': exc['reason'] if exc else 'RNone', 'why': exc.get('why', '') if exc else '',
-                'fixture': fixture,
+                'fixture': fixture, 'typeline': p['typeline'],
                 'redirect_to': redirect_target(open(os.path.join(d, f), encoding='utf-8').read()) if kind == 'KRedirect' else None,
             })
     rule_dirs = []
@@ -168,25 +172,26 @@ def cstr(s):
 
 def coq_text(t):
     o = ['(* GENERATED by tools/gen/docs_table.py from docs/rules, bundle/regal/rules, provided/data.yaml and',
-         '   corpus/C08/exceptions.json -- do not edit. Data only; the obligations over it are in Proofs/Layout.v. *)',
+         '   corpus/C08/exceptions.json -- do not edit. Data only; the obligations over it are in Model/DocsTable.v, Proofs/DocsTable.v. *)',
          'From Coq Require Import List NArith.', 'Import ListNotations.', 'Open Scope N_scope.', '',
          'Inductive page_kind := KPair | KAvoidOnly | KMulti | KNone | KRedirect.',
          'Inductive exc_reason := RNone | RMultiFile | RConfig | RFileName | RCapabilities | RNoExample | RDocsDefect | RAlternatives.',
          '',
          '(* category, rule, kind, #Avoid rego blocks, #Prefer rego blocks, lines of first Avoid block, lines of first',
          '   Prefer block, exception reason, dedicated fixture corpus/C08/<category>/<rule>/case.json present,',
-         '   redirect target (category/rule, [] when none) *)',
+         '   page carries a Type: Aggregate line, redirect target (category/rule, [] when none) *)',
          'Record docs_row := { d_cat : list N; d_name : list N; d_kind : page_kind; d_navoid : nat; d_nprefer : nat;',
-         '  d_avoid_lines : nat; d_prefer_lines : nat; d_reason : exc_reason; d_fixture : bool; d_redirect : list N * list N }.',
+         '  d_avoid_lines : nat; d_prefer_lines : nat; d_reason : exc_reason; d_fixture : bool; d_typeline : bool;',
+         '  d_redirect : list N * list N }.',
          '', 'Definition docs_rows : list docs_row := [']
     rs = []
     for r in t['rows']:
         rt = (r['redirect_to'] or '/').split('/')
         rs.append('  (* %s/%s *) {| d_cat := %s; d_name := %s; d_kind := %s; d_navoid := %d; d_nprefer := %d; '
-                  'd_avoid_lines := %d; d_prefer_lines := %d; d_reason := %s; d_fixture := %s; d_redirect := (%s, %s) |}' % (
+                  'd_avoid_lines := %d; d_prefer_lines := %d; d_reason := %s; d_fixture := %s; d_typeline := %s; d_redirect := (%s, %s) |}' % (
                       r['category'], r['name'], cstr(r['category']), cstr(r['name']), r['kind'], len(r['avoid']),
                       len(r['prefer']), r['avoid_lines'], r['prefer_lines'], r['reason'],
-                      'true' if r['fixture'] else 'false', cstr(rt[0]) if rt[0] else '[]', cstr(rt[1]) if rt[1] else '[]'))
+                      'true' if r['fixture'] else 'false', 'true' if r['typeline'] else 'false', cstr(rt[0]) if rt[0] else '[]', cstr(rt[1]) if rt[1] else '[]'))
     o.append(';\n'.join(rs))
     o.append('].')
     o.append('')
